@@ -372,7 +372,7 @@ def _raw_families(run, O, tok):
         if r < 0.24:
             spec = _plant(O, spec, ("nary-chr-without-val", "d-delimiter-chr-without-val", "two-malformed-radicals",
                                     "d-default-delimiter-over-nested-explicit-delimiter", "one-malformed-radical",
-                                    "one-malformed-radical")[int(r / 0.04)], rng, tok)
+                                    "malformed-radical-under-rad-with-closing-bracket-in-degree")[int(r / 0.04)], rng, tok)
         yield "RND", spec
 
 
@@ -419,6 +419,12 @@ def _plant(O, spec, feature, rng, tok):
             if rng.random() < 0.6:
                 lst2 = rng.choice(lists)
                 lst2.append(O.R(tok() + close[b] + rng.choice(("", tok()))))
+    elif feature == "malformed-radical-under-rad-with-closing-bracket-in-degree":
+        b, node = mal()
+        wrap = rng.choice(([node], [O.R(tok()), node], [O.N("f", {"pr": 1}, [["num", [node]], ["den", [O.R(tok())]]])]))
+        outer = O.N("rad", {"pr": 0}, [["deg", [O.R(tok() + close[b] + rng.choice(("", tok())))]], ["e", wrap]])
+        lst = rng.choice(lists)
+        lst.insert(rng.randrange(len(lst) + 1), outer)
     elif feature == "d-default-delimiter-over-nested-explicit-delimiter":
         inner = O.N("d", {"pr": 1, "beg": rng.choice("[{|"), "end": rng.choice("]}|")}, [["e", [O.R(tok())]]])
         mid = rng.choice(([inner], [O.N("f", {"pr": 0}, [["num", [inner]], ["den", [O.R(tok())]]])], [O.R(tok()), inner]))
@@ -557,6 +563,7 @@ def main(run):
     for i, ob in obs.items():
         verdicts[i] = judge(O, meta[i]["a"], ob)
     compared_kind: dict[str, int] = {}
+    sampled: set = set()
     for i in sorted(obs):
         m = meta[i]
         a = m["a"]
@@ -595,8 +602,12 @@ def main(run):
         elif a.malformed == 0 and len(integ_pool) < 4000 and specs[i].get("para") == 0 and m["family"] in ("E1", "E2", "RND", "sym", "E3"):
             integ_pool.append(i)
         sig = [sorted(a.kinds), sorted(a.features), feature, _outcome(v), sorted(a.unclaimed)]
-        run.case(sig, sample={"family": m["family"], "xml": O.to_xml(specs[i])[:600], "output": ob.get("out"),
-                              "expected": a.expected if not a.unclaimed else None} if i in (3, 400, 2000, 9000) or (risky and len(run.samples) < 5 and v) else None)
+        want_sample = (m["role"] == "case" and (m["family"], bool(risky)) not in sampled and m["family"] in ("E2", "MR", "RND", "MR2")
+                       and (not risky or v) and (risky or not a.unclaimed or a.malformed))
+        if want_sample:
+            sampled.add((m["family"], bool(risky)))
+        run.case(sig, sample={"family": m["family"], "feature": feature, "xml": O.to_xml(specs[i])[:700], "output": ob.get("out"), "raised": ob.get("exc"),
+                              "expected": a.expected if not a.unclaimed and not a.malformed else None, "verdict": _outcome(v)} if want_sample else None)
         for sym, detail in v:
             twin_dirty = bool(risky and verdicts.get(m.get("twin"), [("twin-not-run", "")]))
             key = f"C19:{COMPONENT}:{feature}{'+dirty-twin' if twin_dirty else ''}:{sym}"
